@@ -185,7 +185,8 @@ Inductive Step (g : cfg) (s : state) : action -> state -> list event -> Prop :=
 | S_new_static c p0 :
     p0 = match aget c (peers s) with Some p => p | None => new_peer end ->
     p_static p0 = true ->
-    Step g s (ANewPeer c) (upd_peers s (aset c (set_status p0 Connecting) (peers s))) [EReset c]
+    Step g s (ANewPeer c) (upd_peers s (aset c (set_status p0 Connecting) (peers s)))
+         (match p_chal p0 with Some ch => [EStale c ch; EReset c] | None => [EReset c] end)
 | S_new_dyn c p0 :
     p0 = match aget c (peers s) with Some p => p | None => new_peer end ->
     p_static p0 = false ->
@@ -238,7 +239,8 @@ Inductive Step (g : cfg) (s : state) : action -> state -> list event -> Prop :=
 | S_purge :
     Step g s APurge
          (mkS (filter (fun cp => negb (purgeable (now s) cp)) (peers s))
-              (fold_left del_key_of (filter (purgeable (now s)) (peers s)) (addr s))
+              (fold_left (repoint (filter (fun cp => negb (purgeable (now s) cp)) (peers s)))
+                         (filter (purgeable (now s)) (peers s)) (addr s))
               (next s) (now s) (signed s))
          (map (fun cp => EPurged (fst cp)) (filter (purgeable (now s)) (peers s)))
 | S_sign k m :
@@ -274,7 +276,6 @@ Ltac inv H := inversion H; subst; clear H.
 
 Lemma peer_response_cases g nw c p r :
   (exists outs, peer_response g nw c p r = PRejected (mark_disc nw p) outs)
-  \/ (peer_response g nw c p r = PPanic /\ key_differs p (r_pk r) = true)
   \/ (exists ch outs, p_chal p = Some ch /\ verify ch (r_sig r) (r_pk r) = true
         /\ key_differs p (r_pk r) = false
         /\ v_is_set (r_cver r) = true /\ v_same_minor (my_cver g) (r_cver r) = true
@@ -287,8 +288,8 @@ Proof.
   destruct (p_chal p) as [ch|] eqn:E2; [|left; eauto].
   destruct (verify ch (r_sig r) (r_pk r)) eqn:E3; cbn [negb]; [|left; eauto].
   destruct (v_same_minor (my_cver g) (r_cver r)) eqn:E4; cbn [negb]; [|left; eauto].
-  destruct (key_differs p (r_pk r)) eqn:E5; [right; left; auto|].
-  right; right. exists ch. eexists. repeat split; try reflexivity; assumption.
+  destruct (key_differs p (r_pk r)) eqn:E5; [left; eauto|].
+  right. exists ch. eexists. repeat split; try reflexivity; assumption.
 Qed.
 
 Lemma step_Step g s a s' outs ev :
@@ -297,8 +298,8 @@ Proof.
   intros Hs H. destruct a as [c|c x|c r pref|c ext| |dt|k m]; cbn [step] in H.
   - (* new peer *)
     remember (match aget c (peers s) with Some p => p | None => new_peer end) as p0 eqn:Hp0.
-    destruct (p_static (set_status p0 Connecting)) eqn:Hst; inv H.
-    + eapply S_new_static; eauto.
+    destruct (p_static (set_status p0 Connecting)) eqn:Hst; injection H as <- <- <-.
+    + change (p_chal (set_status p0 Connecting)) with (p_chal p0). eapply S_new_static; eauto.
     + eapply S_new_dyn; eauto.
   - (* challenge *)
     destruct (aget c (peers s)) as [p|] eqn:Hp.
@@ -312,9 +313,8 @@ Proof.
     destruct (lim_check (now s) (lim_increase (p_lim p))) as [ex l].
     destruct ex; [inv H; eapply S_limited; eauto using bump_ge|].
     destruct (peer_response_cases g (now s) c (set_lim p l) r)
-      as [[o Hr]|[[Hr _]|[ch [o [Hch [Hv [Hk [_ [_ Hr]]]]]]]]]; rewrite Hr in H.
+      as [[o Hr]|[ch [o [Hch [Hv [Hk [_ [_ Hr]]]]]]]]; rewrite Hr in H.
     + inv H. eapply S_rejected; eauto.
-    + discriminate.
     + cbn [set_lim p_chal p_static p_lim] in *.
       change (key_differs (set_lim p l) (r_pk r)) with (key_differs p (r_pk r)) in Hk.
       change (accepted_peer (set_lim p l) l r) with (accepted_peer p l r) in H.
@@ -363,12 +363,25 @@ Definition ev_lt (b : N) (e : event) : Prop :=
   | _ => True
   end.
 
+(* events that end the current connection of entry c (it is re-opened, closed, or the entry goes away) *)
+Definition closes (c : N) (e : event) : bool :=
+  match e with EReset c' | ERemoved c' | EPurged c' => c' =? c | _ => false end.
+(* ch was issued on c and the connection of c was not re-opened / closed since *)
+Fixpoint since_issue (c ch : N) (tr : list event) : Prop :=
+  match tr with
+  | [] => False
+  | e :: l => e = EIssued c ch \/ (closes c e = false /\ since_issue c ch l)
+  end.
+Definition is_stale (e : event) : bool := match e with EStale _ _ => true | _ => false end.
+Definition has_stale (tr : list event) : bool := existsb is_stale tr.
+
 (* what must hold of the events that happened before [e] *)
 Definition ev_ok (e : event) (l : list event) : Prop :=
   match e with
   | EIssued c ch => Forall (ev_lt ch) l
   | EAccepted c K ch =>
-      In (ESigned K ch) l /\ In (EIssued c ch) l /\ forall c' k', ~ In (EAccepted c' k' ch) l
+      In (ESigned K ch) l /\ In (EIssued c ch) l /\ (forall c' k', ~ In (EAccepted c' k' ch) l)
+      /\ (has_stale l = false -> since_issue c ch l)
   | _ => True
   end.
 Fixpoint trace_ok (tr : list event) : Prop :=
@@ -420,7 +433,7 @@ Qed.
 Lemma session_in c tr K ch : session c tr = Some (K, ch) -> In (EAccepted c K ch) tr.
 Proof.
   induction tr as [|e l IH]; cbn [session]; [discriminate|].
-  destruct e as [c' ch'|k m|c' k ch'|c'|c'|c']; try (intros H; right; apply IH; exact H).
+  destruct e as [c' ch'|k m|c' k ch'|c'|c'|c'|c' ch']; try (intros H; right; apply IH; exact H).
   - destruct (N.eqb_spec c' c); intros H; [inv H; left; reflexivity|right; apply IH; exact H].
   - destruct (c' =? c); intros H; [discriminate|right; apply IH; exact H].
   - destruct (c' =? c); intros H; [discriminate|right; apply IH; exact H].
@@ -469,6 +482,8 @@ Record Inv (tr : list event) (s : state) : Prop := mkInv {
   i_conn   : forall c p, aget c (peers s) = Some p -> p_status p = Connected ->
                exists K ch, p_pk p = Some K /\ session c tr = Some (K, ch);
   i_trace  : trace_ok tr;
+  i_fresh  : forall c p ch, aget c (peers s) = Some p -> p_chal p = Some ch ->
+               has_stale tr = false -> since_issue c ch tr;
 }.
 
 Lemma static_peers_in n kv : In kv (static_peers n) -> 1 <= fst kv <= N.of_nat n /\ snd kv = static_peer.
@@ -496,6 +511,8 @@ Proof.
   - intros c p Hp Hc. apply aget_in in Hp. apply static_peers_in in Hp as [_ Hp].
     cbn [snd] in Hp. subst p. discriminate.
   - exact I.
+  - intros c p ch Hp Hc. apply aget_in in Hp. apply static_peers_in in Hp as [_ Hp].
+    cbn [snd] in Hp. subst p. discriminate.
 Qed.
 
 (* lookups after an update of one entry *)
@@ -517,6 +534,28 @@ Qed.
 
 Ltac solve_in := repeat (first [left; reflexivity | right]); assumption.
 
+Lemma has_stale_app a b : has_stale (a ++ b) = has_stale a || has_stale b.
+Proof. apply existsb_app. Qed.
+
+Lemma since_issue_app_skip c ch ev l :
+  (forall e, In e ev -> closes c e = false) -> since_issue c ch l -> since_issue c ch (ev ++ l).
+Proof.
+  induction ev as [|e t IH]; intros H Hl; [exact Hl|]. cbn [app since_issue]. right. split.
+  - apply H. left; reflexivity.
+  - apply IH; [|exact Hl]. intros e' Hin. apply H. right; exact Hin.
+Qed.
+
+Lemma since_issue_split c ch l :
+  since_issue c ch l ->
+  exists l2 l1, l = l2 ++ EIssued c ch :: l1 /\ forall e, In e l2 -> closes c e = false.
+Proof.
+  induction l as [|e t IH]; cbn [since_issue]; [intros []|].
+  intros [->|[Hc H]].
+  - exists [], t. split; [reflexivity|intros e []].
+  - destruct (IH H) as [l2 [l1 [-> Hl2]]]. exists (e :: l2), l1. split; [reflexivity|].
+    intros e' [<-|Hin]; [exact Hc|apply Hl2; exact Hin].
+Qed.
+
 (* generic preservation for steps that neither issue nor accept and leave every
    entry's (challenge, status, key) alone or reset it *)
 Definition weaker (c : N) (p p' : peer) : Prop :=
@@ -529,11 +568,13 @@ Lemma Inv_frame tr s ps' ad' nx' nw' ev :
   (forall e, In e ev -> neutral e /\ ev_lt nx' e) ->
   (forall c p', aget c ps' = Some p' ->
      (exists p, aget c (peers s) = Some p /\ weaker c p p' /\
-                (p_status p' = Connected -> forall e, In e ev -> touches c e = false))
+                (p_status p' = Connected -> forall e, In e ev -> touches c e = false) /\
+                (p_chal p' <> None ->
+                   has_stale ev = true \/ forall e, In e ev -> closes c e = false))
      \/ (p_chal p' = None /\ p_status p' <> Connected)) ->
   Inv (ev ++ tr) (mkS ps' ad' nx' nw' (signed s)).
 Proof.
-  intros [Hs Hv Hsg Hch Hcn Htr] Hs' Hnx Hev Hp.
+  intros [Hs Hv Hsg Hch Hcn Htr Hfr] Hs' Hnx Hev Hp.
   assert (Hnoacc : forall ch e, In e ev -> is_accept_of ch e = false).
   { intros ch e Hin. destruct (Hev _ Hin) as [Hn _]. destruct e; cbn in Hn |- *; try reflexivity; contradiction. }
   constructor; cbn [peers next signed].
@@ -547,10 +588,15 @@ Proof.
     rewrite Hw in Hc. destruct (Hch _ _ _ Hg Hc) as [Hi Hna]. split.
     + apply in_or_app; right; exact Hi.
     + intros c' k'. apply not_in_app_accept; [intros e; apply Hnoacc|apply Hna].
-  - intros c p' Hget Hc. destruct (Hp _ _ Hget) as [[p [Hg [[_ [Hst Hpk]] Hto]]]|[_ Hn]]; [|contradiction].
+  - intros c p' Hget Hc. destruct (Hp _ _ Hget) as [[p [Hg [[_ [Hst Hpk]] [Hto _]]]]|[_ Hn]]; [|contradiction].
     destruct (Hcn _ _ Hg (Hst Hc)) as [K [ch [HK Hses]]]. exists K, ch. split; [congruence|].
     rewrite session_app_skip; [exact Hses|]. apply Hto; exact Hc.
   - apply trace_ok_neutral; [|exact Htr]. intros e Hin. apply Hev; exact Hin.
+  - intros c p' ch Hget Hc Hst. rewrite has_stale_app in Hst. apply orb_false_iff in Hst as [Hst1 Hst2].
+    destruct (Hp _ _ Hget) as [[p [Hg [[Hw _] [_ Hcl]]]]|[Hnone _]]; [|congruence].
+    destruct Hw as [Hw|Hw]; [|congruence].
+    destruct Hcl as [Hcl|Hcl]; [congruence|congruence|].
+    apply since_issue_app_skip; [exact Hcl|]. rewrite Hw in Hc. eapply Hfr; eauto.
 Qed.
 
 Lemma neutral_reset c nx e : In e [EReset c] -> neutral e /\ ev_lt nx e.
@@ -559,25 +605,38 @@ Proof. intros [<-|[]]. split; exact I. Qed.
 Lemma weaker_refl c p : weaker c p p.
 Proof. repeat split; auto. Qed.
 
+Lemma closes_other c c0 e : In e [EReset c] -> c0 <> c -> closes c0 e = false.
+Proof. intros [<-|[]] Hn. cbn. apply N.eqb_neq. congruence. Qed.
+
 Lemma Inv_step g tr s a s' ev :
   Inv tr s -> act_ok g s a = true -> Step g s a s' ev -> Inv (ev ++ tr) s'.
 Proof.
-  intros HI Hok HS. pose proof HI as [Hs Hv Hsg Hch Hcn Htr].
+  intros HI Hok HS. pose proof HI as [Hs Hv Hsg Hch Hcn Htr Hfr].
   destruct HS as
     [c p0 Hp0 Hst | c p0 Hp0 Hst | a nx nw Hnx | a c p l nx Hp Hnx | c x p l Hp
     | c r pref p l Hp | c ext p Hp
     | c r pref p l ch Hp Hpc Hver Hkd
     | c r pref p l ch idx old Hp Hpc Hver Hkd Hne Hold Hopk Host | | k m].
-  - (* new peer, static *)
+  - (* new peer, static: the stored challenge (if any) survives *)
+    set (evs := match p_chal p0 with Some ch => [EStale c ch; EReset c] | None => [EReset c] end).
+    assert (Hevs : forall e, In e evs -> (exists ch, e = EStale c ch) \/ e = EReset c).
+    { unfold evs. destruct (p_chal p0); intros e Hin; cbn [In] in Hin;
+        repeat (destruct Hin as [<-|Hin]; eauto); destruct Hin. }
     unfold upd_peers. apply Inv_frame;
-      [exact HI|apply ksorted_aset; exact Hs|lia|intros e; apply neutral_reset|].
+      [exact HI|apply ksorted_aset; exact Hs|lia| |].
+    { intros e Hin. destruct (Hevs _ Hin) as [[ch ->]| ->]; split; exact I. }
     intros c0 p' Hget. apply aget_aset_cases in Hget as [[-> ->]|[Hn Hget]].
     + destruct (aget c (peers s)) as [p|] eqn:Hp.
-      * subst p0. left. exists p. split; [reflexivity|]. split; [|cbn; discriminate].
-        repeat split; cbn; auto; discriminate.
+      * subst p0. left. exists p. split; [reflexivity|]. split; [|split; [cbn; discriminate|]].
+        { repeat split; cbn; auto; discriminate. }
+        cbn [set_status p_chal]. intros Hc. left. unfold evs.
+        destruct (p_chal p); [reflexivity|contradiction].
       * subst p0. right. cbn. split; [reflexivity|discriminate].
-    + left. exists p'. split; [exact Hget|]. split; [apply weaker_refl|].
-      intros _ e [<-|[]]. cbn. apply N.eqb_neq; congruence.
+    + left. exists p'. split; [exact Hget|]. split; [apply weaker_refl|]. split.
+      * intros _ e Hin. destruct (Hevs _ Hin) as [[ch ->]| ->]; cbn; [reflexivity|].
+        apply N.eqb_neq; congruence.
+      * intros _. right. intros e Hin. destruct (Hevs _ Hin) as [[ch ->]| ->]; cbn; [reflexivity|].
+        apply N.eqb_neq; congruence.
   - (* new peer, handshake initiated *)
     assert (Hnoacc : forall c' k', ~ In (EAccepted c' k' (next s)) tr).
     { intros c' k' Hin. rewrite Forall_forall in Hv. specialize (Hv _ Hin). cbn in Hv. lia. }
@@ -597,15 +656,22 @@ Proof.
         cbn [session]. destruct (N.eqb_spec c c0); [congruence|exact Hses].
     + cbn [trace_ok ev_ok]. split; [|split; [exact I|exact Htr]].
       constructor; [exact I|exact Hv].
+    + intros c0 p' ch Hget Hc Hstale. apply aget_aset_cases in Hget as [[-> ->]|[Hn Hget]].
+      * cbn in Hc. inv Hc. left. reflexivity.
+      * cbn [since_issue]. right. split; [reflexivity|]. right. split.
+        { cbn. apply N.eqb_neq; congruence. }
+        eapply Hfr; eauto.
   - (* nothing happens *)
     apply (Inv_frame tr s (peers s) (addr s) nx nw []); auto; [intros e []|].
     intros c p' Hget. left. exists p'. split; [exact Hget|]. split; [apply weaker_refl|].
-    intros _ e [].
+    split; [intros _ e []|]. intros _. right. intros e [].
   - (* rate limited *)
     apply (Inv_frame tr s _ (addr s) nx (now s) []); auto using ksorted_aset; [intros e []|].
     intros c0 p' Hget. apply aget_aset_cases in Hget as [[-> ->]|[Hn Hget]]; left.
-    + exists p. split; [exact Hp|]. split; [|intros _ e []]. repeat split; cbn; auto.
-    + exists p'. split; [exact Hget|]. split; [apply weaker_refl|intros _ e []].
+    + exists p. split; [exact Hp|]. split; [repeat split; cbn; auto|].
+      split; [intros _ e []|]. intros _. right. intros e [].
+    + exists p'. split; [exact Hget|]. split; [apply weaker_refl|].
+      split; [intros _ e []|]. intros _. right. intros e [].
   - (* challenge answered: signs x, issues a fresh challenge *)
     pose proof (bump_ge s x) as Hge. pose proof (bump_gt s x) as Hgt.
     assert (Hnoacc : forall c' k', ~ In (EAccepted c' k' (bump s x)) tr).
@@ -626,20 +692,26 @@ Proof.
       * destruct (Hcn _ _ Hget Hc) as [K [ch [HK Hses]]]. exists K, ch. split; [exact HK|]. exact Hses.
     + cbn [trace_ok ev_ok]. split; [|split; [exact I|exact Htr]].
       constructor; [cbn; lia|]. eapply Forall_ev_lt_mono; [|exact Hv]. exact Hge.
+    + intros c0 p' ch Hget Hc Hstale. apply aget_aset_cases in Hget as [[-> ->]|[Hn Hget]].
+      * cbn in Hc. inv Hc. left. reflexivity.
+      * cbn [since_issue]. right. split; [reflexivity|]. right. split; [reflexivity|].
+        eapply Hfr; eauto.
   - (* rejected response *)
     apply Inv_frame;
       [exact HI|apply ksorted_aset; exact Hs|apply bump_ge|intros e; apply neutral_reset|].
     intros c0 p' Hget. apply aget_aset_cases in Hget as [[-> ->]|[Hn Hget]].
     + right. cbn. split; [reflexivity|discriminate].
-    + left. exists p'. split; [exact Hget|]. split; [apply weaker_refl|].
-      intros _ e [<-|[]]. cbn. apply N.eqb_neq; congruence.
+    + left. exists p'. split; [exact Hget|]. split; [apply weaker_refl|]. split.
+      * intros _ e [<-|[]]. cbn. apply N.eqb_neq; congruence.
+      * intros _. right. intros e Hin. eapply closes_other; eauto.
   - (* disconnect *)
     unfold upd_peers. apply Inv_frame;
       [exact HI|apply ksorted_aset; exact Hs|lia|intros e; apply neutral_reset|].
     intros c0 p' Hget. apply aget_aset_cases in Hget as [[-> ->]|[Hn Hget]].
     + right. cbn. split; [reflexivity|discriminate].
-    + left. exists p'. split; [exact Hget|]. split; [apply weaker_refl|].
-      intros _ e [<-|[]]. cbn. apply N.eqb_neq; congruence.
+    + left. exists p'. split; [exact Hget|]. split; [apply weaker_refl|]. split.
+      * intros _ e [<-|[]]. cbn. apply N.eqb_neq; congruence.
+      * intros _. right. intros e Hin. eapply closes_other; eauto.
   - (* accepted *)
     pose proof (verify_true _ _ _ Hver) as Hsig.
     cbn [act_ok] in Hok. rewrite Hsig in Hok. apply in_signed_In in Hok. apply Hsg in Hok.
@@ -652,13 +724,16 @@ Proof.
                              e = ESigned (me g) (r_chal r) \/ e = EAccepted c K ch).
     { unfold accept_events. intros e Hin. apply in_app_or in Hin as [Hin|[<-|[]]]; [|right; reflexivity].
       destruct (p_static p); [destruct Hin|]. destruct Hin as [<-|[]]. left; reflexivity. }
-    assert (Hacc_in : In (EAccepted c K ch) (accept_events g p r c ch ++ tr)).
-    { apply in_or_app. left. unfold accept_events. apply in_or_app. right. left. reflexivity. }
     assert (Htr' : trace_ok (accept_events g p r c ch ++ tr)).
-    { unfold accept_events. destruct (p_static p); cbn [app trace_ok ev_ok]; repeat split; auto. }
+    { unfold accept_events. destruct (p_static p); cbn [app trace_ok ev_ok]; repeat split; auto;
+        intros Hst; eapply Hfr; eauto. }
     assert (Hses : forall c0, session c0 (accept_events g p r c ch ++ tr) =
                               if c =? c0 then Some (K, ch) else session c0 tr).
     { intros c0. unfold accept_events. destruct (p_static p); cbn [app session]; reflexivity. }
+    assert (Hstale : has_stale (accept_events g p r c ch ++ tr) = has_stale tr).
+    { unfold accept_events. destruct (p_static p); reflexivity. }
+    assert (Hncl : forall c0 e, In e (accept_events g p r c ch) -> closes c0 e = false).
+    { intros c0 e Hin. destruct (Hevs _ Hin) as [->| ->]; reflexivity. }
     constructor; cbn [peers next signed].
     + apply ksorted_aset; exact Hs.
     + apply Forall_app. split.
@@ -679,6 +754,9 @@ Proof.
       * destruct (Hcn _ _ Hget Hc) as [K0 [ch0 [HK Hs0]]]. exists K0, ch0. split; [exact HK|].
         rewrite Hses. destruct (N.eqb_spec c c0); [congruence|exact Hs0].
     + exact Htr'.
+    + intros c0 p' ch0 Hget Hc Hst. rewrite Hstale in Hst.
+      apply aget_aset_cases in Hget as [[-> ->]|[Hn Hget]]; [cbn in Hc; discriminate|].
+      apply since_issue_app_skip; [apply Hncl|]. eapply Hfr; eauto.
   - (* accepted as a reconnection *)
     pose proof (verify_true _ _ _ Hver) as Hsig.
     cbn [act_ok] in Hok. rewrite Hsig in Hok. apply in_signed_In in Hok. apply Hsg in Hok.
@@ -692,10 +770,15 @@ Proof.
     { unfold accept_events. intros e Hin. apply in_app_or in Hin as [Hin|[<-|[]]]; [|right; reflexivity].
       destruct (p_static p); [destruct Hin|]. destruct Hin as [<-|[]]. left; reflexivity. }
     assert (Htr' : trace_ok (accept_events g p r c ch ++ tr)).
-    { unfold accept_events. destruct (p_static p); cbn [app trace_ok ev_ok]; repeat split; auto. }
+    { unfold accept_events. destruct (p_static p); cbn [app trace_ok ev_ok]; repeat split; auto;
+        intros Hst; eapply Hfr; eauto. }
     assert (Hses : forall c0, session c0 (accept_events g p r c ch ++ tr) =
                               if c =? c0 then Some (K, ch) else session c0 tr).
     { intros c0. unfold accept_events. destruct (p_static p); cbn [app session]; reflexivity. }
+    assert (Hstale : has_stale (accept_events g p r c ch ++ tr) = has_stale tr).
+    { unfold accept_events. destruct (p_static p); reflexivity. }
+    assert (Hncl : forall c0 e, In e (accept_events g p r c ch) -> closes c0 e = false).
+    { intros c0 e Hin. destruct (Hevs _ Hin) as [->| ->]; reflexivity. }
     assert (Hget' : forall c0 p', aget c0 (aset c (mkP Connected (p_static old) None (Some K) (r_cver r)
                          (r_wver r) (p_lim old) None) (del idx (aset c (accepted_peer p l r) (peers s)))) = Some p' ->
                     (c0 = c /\ p_chal p' = None /\ p_pk p' = Some K)
@@ -725,16 +808,29 @@ Proof.
         destruct (N.eqb_spec idx c0); [congruence|].
         rewrite Hses. destruct (N.eqb_spec c c0); [congruence|exact Hs0].
     + cbn [app trace_ok ev_ok]. split; [exact I|exact Htr'].
+    + intros c0 p' ch0 Hget Hc Hst. cbn [app] in Hst |- *.
+      change (has_stale (ERemoved idx :: accept_events g p r c ch ++ tr))
+        with (has_stale (accept_events g p r c ch ++ tr)) in Hst. rewrite Hstale in Hst.
+      apply Hget' in Hget as [[-> [Hcn0 _]]|[Hn [Hni Hget]]]; [congruence|].
+      cbn [since_issue]. right. split; [cbn; apply N.eqb_neq; congruence|].
+      apply since_issue_app_skip; [apply Hncl|]. eapply Hfr; eauto.
   - (* purge *)
+    assert (Hgone : forall c p' e, aget c (peers s) = Some p' -> purgeable (now s) (c, p') = false ->
+              In e (map (fun cp => EPurged (fst cp)) (filter (purgeable (now s)) (peers s))) ->
+              touches c e = false /\ closes c e = false).
+    { intros c p' e Hp Hpg Hin. apply in_map_iff in Hin as [[c1 p1] [<- Hin]]. cbn [fst touches closes].
+      assert (c1 <> c).
+      { intros ->. apply filter_In in Hin as [Hin Hpg1].
+        apply (in_aget _ _ _ Hs) in Hin. rewrite Hp in Hin. inv Hin. congruence. }
+      split; apply N.eqb_neq; assumption. }
     apply Inv_frame; auto using ksorted_filter; [lia| |].
     + intros e Hin. apply in_map_iff in Hin as [cp [<- _]]. split; exact I.
     + intros c p' Hget. rewrite aget_filter in Hget by exact Hs.
       destruct (aget c (peers s)) as [p|] eqn:Hp; [|discriminate].
       destruct (purgeable (now s) (c, p)) eqn:Hpg; cbn [negb] in Hget; [discriminate|]. inv Hget.
-      left. exists p'. split; [reflexivity|]. split; [apply weaker_refl|].
-      intros _ e Hin. apply in_map_iff in Hin as [[c1 p1] [<- Hin]]. cbn [fst touches].
-      apply N.eqb_neq. intros ->. apply filter_In in Hin as [Hin Hpg1].
-      apply (in_aget _ _ _ Hs) in Hin. rewrite Hp in Hin. inv Hin. congruence.
+      left. exists p'. split; [reflexivity|]. split; [apply weaker_refl|]. split.
+      * intros _ e Hin. eapply Hgone; eauto.
+      * intros _. right. intros e Hin. eapply Hgone; eauto.
   - (* a remote key holder signs *)
     pose proof (bump_ge s m) as Hge. pose proof (bump_gt s m) as Hgt.
     constructor; cbn [peers next signed app].
@@ -746,6 +842,7 @@ Proof.
     + intros c p Hget Hc. destruct (Hcn _ _ Hget Hc) as [K [ch [HK Hses]]]. exists K, ch.
       split; [exact HK|exact Hses].
     + cbn [trace_ok ev_ok]. split; [exact I|exact Htr].
+    + intros c p ch Hget Hc Hst. cbn [since_issue]. right. split; [reflexivity|]. eapply Hfr; eauto.
 Qed.
 
 (* ------------------------------------------------------------------ *)
@@ -792,7 +889,7 @@ Lemma accepted_facts tr c K ch :
   /\ accepted_count ch tr = 1%nat.
 Proof.
   intros Htr Hin. apply in_split in Hin as [l3 [l Htr_eq]]. subst tr.
-  destruct (trace_ok_split _ _ _ Htr) as [[Hsig [Hiss Hno]] Hl].
+  destruct (trace_ok_split _ _ _ Htr) as [[Hsig [Hiss [Hno _]]] Hl].
   (* the challenge was issued before it was signed *)
   apply in_split in Hiss as [a [b Hl_eq]].
   assert (Hb : Forall (ev_lt ch) b).
@@ -810,7 +907,7 @@ Proof.
     assert (H3 : accepted_count ch l3 = 0%nat).
     { apply accepted_count_zero. intros c' k' Hin. apply in_split in Hin as [x [y Hx]]. subst l3.
       rewrite <- app_assoc in Htr. cbn [app] in Htr.
-      apply trace_ok_split in Htr as [[_ [_ Hno']] _].
+      apply trace_ok_split in Htr as [[_ [_ [Hno' _]]] _].
       apply (Hno' c K). apply in_or_app. right. left. reflexivity. }
     rewrite H3. unfold accepted_count. cbn [filter is_accept_of]. rewrite N.eqb_refl. cbn [length].
     fold (accepted_count ch l). rewrite accepted_count_zero by exact Hno. reflexivity.
@@ -836,7 +933,7 @@ Theorem connected_authentic g n f0 tr s c p K :
     /\ before (ESigned K ch) (EAccepted c K ch) tr
     /\ accepted_count ch tr = 1%nat.
 Proof.
-  intros HR Hp Hst Hpk. apply Reach_Inv in HR. destruct HR as [_ _ _ _ Hcn Htr].
+  intros HR Hp Hst Hpk. apply Reach_Inv in HR. destruct HR as [_ _ _ _ Hcn Htr _].
   destruct (Hcn _ _ Hp Hst) as [K0 [ch [HK Hses]]]. rewrite Hpk in HK. inv HK.
   exists ch. split; [exact Hses|]. apply accepted_facts; [exact Htr|].
   apply session_in. exact Hses.
@@ -875,28 +972,22 @@ Qed.
 (* ------------------------------------------------------------------ *)
 (* rejected responses are inert                                         *)
 (* ------------------------------------------------------------------ *)
-(* the four ways in which a response is not the answer to the challenge
-   outstanding on connection entry p *)
+(* the five ways in which a response is not an acceptable answer to the
+   challenge outstanding on connection entry p *)
 Definition rejects (g : cfg) (p : peer) (r : response) : Prop :=
   v_is_set (r_cver r) = false                                  (* no version *)
   \/ p_chal p = None                                           (* unsolicited *)
   \/ (exists ch, p_chal p = Some ch /\ verify ch (r_sig r) (r_pk r) = false)
                                                                (* other challenge / bad signature / other key *)
-  \/ v_same_minor (my_cver g) (r_cver r) = false.              (* incompatible version *)
+  \/ v_same_minor (my_cver g) (r_cver r) = false               (* incompatible version *)
+  \/ key_differs p (r_pk r) = true.                            (* the entry already records another key *)
 
 Lemma rejects_peer_response g nw c p r :
   rejects g p r -> exists outs, peer_response g nw c p r = PRejected (mark_disc nw p) outs.
 Proof.
   intros H. destruct (peer_response_cases g nw c p r)
-    as [Hr|[[_ Hk]|[ch [o [Hch [Hv [_ [Hset [Hmin _]]]]]]]]]; [exact Hr| |].
-  - (* a panic needs a response that passes every check *)
-    unfold peer_response.
-    destruct (v_is_set (r_cver r)) eqn:E1; cbn [negb]; [|eauto].
-    destruct (p_chal p) as [ch|] eqn:E2; [|eauto].
-    destruct (verify ch (r_sig r) (r_pk r)) eqn:E3; cbn [negb]; [|eauto].
-    destruct (v_same_minor (my_cver g) (r_cver r)) eqn:E4; cbn [negb]; [|eauto].
-    exfalso. destruct H as [H|[H|[[ch' [H1 H2]]|H]]]; try congruence.
-  - exfalso. destruct H as [H|[H|[[ch' [H1 H2]]|H]]]; try congruence.
+    as [Hr|[ch [o [Hch [Hv [Hk [Hset [Hmin _]]]]]]]]; [exact Hr|].
+  exfalso. destruct H as [H|[H|[[ch' [H1 H2]]|[H|H]]]]; congruence.
 Qed.
 
 Theorem bad_response_inert g s c r pref :
@@ -936,57 +1027,63 @@ Qed.
 (* ------------------------------------------------------------------ *)
 (* panics                                                               *)
 (* ------------------------------------------------------------------ *)
-(* the one class of inputs on which the handler panics: a response that passes
-   every check, delivered on an entry that already records another key *)
-Definition known_keychange (g : cfg) (s : state) (a : action) : bool :=
-  match a with
-  | ADeliverResp c r _ =>
-      match aget c (peers s) with
-      | Some p => key_differs p (r_pk r)
-      | None => false
-      end
-  | _ => false
-  end.
-
-Lemma step_panic g s a site :
-  ksorted (peers s) -> step g s a = Panic site ->
-  known_keychange g s a = true /\ site = SITE_KEY_CHANGED.
+(* no handler panics: the join_as_reconnection assert and the expect() in
+   Network::handle_handshake_response are unreachable (the key-change assert_eq!
+   was turned into a rejection by fix ae2aeaa) *)
+Lemma step_no_panic g s a site : ksorted (peers s) -> step g s a <> Panic site.
 Proof.
   intros Hs H. destruct a as [c|c x|c r pref|c ext| |dt|k m]; cbn [step] in H.
   - destruct (p_static _); discriminate.
   - destruct (aget c (peers s)); [|discriminate].
     destruct (lim_check _ _) as [ex l]. destruct ex; discriminate.
-  - cbn [known_keychange]. destruct (aget c (peers s)) as [p|] eqn:Hp; [|discriminate].
+  - destruct (aget c (peers s)) as [p|] eqn:Hp; [|discriminate].
     destruct (lim_check (now s) (lim_increase (p_lim p))) as [ex l].
     destruct ex; [discriminate|].
     destruct (peer_response_cases g (now s) c (set_lim p l) r)
-      as [[o Hr]|[[Hr Hk]|[ch [o [Hch [Hv [Hk [_ [_ Hr]]]]]]]]]; rewrite Hr in H.
-    + discriminate.
-    + inv H. split; [exact Hk|reflexivity].
-    + exfalso. cbn [set_lim p_chal p_static p_lim] in *.
-      change (accepted_peer (set_lim p l) l r) with (accepted_peer p l r) in H.
-      set (ps1 := aset c (accepted_peer p l r) (peers s)) in *.
-      assert (Hs1 : ksorted ps1) by (apply ksorted_aset; exact Hs).
-      assert (Hc1 : aget c ps1 = Some (accepted_peer p l r)) by apply aget_aset_eq.
-      destruct (find_reconnected (r_pk r) pref ps1) as [idx|] eqn:Hf; [|discriminate].
-      destruct (find_reconnected_some _ _ _ _ Hs1 Hf) as [old [Hold Hcand]].
-      rewrite Hold in H. apply cand_spec in Hcand as [Hpk Hnc].
-      assert (Hne : idx <> c).
-      { intros ->. rewrite Hc1 in Hold. inv Hold. apply Hnc. reflexivity. }
-      rewrite aget_del_neq in H by congruence. rewrite Hc1 in H.
-      destruct (status_eqb (p_status old) Connected) eqn:Hst; [|discriminate].
-      apply status_eqb_eq in Hst. contradiction.
+      as [[o Hr]|[ch [o [Hch [Hv [Hk [_ [_ Hr]]]]]]]]; rewrite Hr in H; [discriminate|].
+    cbn [set_lim p_chal p_static p_lim] in *.
+    change (accepted_peer (set_lim p l) l r) with (accepted_peer p l r) in H.
+    set (ps1 := aset c (accepted_peer p l r) (peers s)) in *.
+    assert (Hs1 : ksorted ps1) by (apply ksorted_aset; exact Hs).
+    assert (Hc1 : aget c ps1 = Some (accepted_peer p l r)) by apply aget_aset_eq.
+    destruct (find_reconnected (r_pk r) pref ps1) as [idx|] eqn:Hf; [|discriminate].
+    destruct (find_reconnected_some _ _ _ _ Hs1 Hf) as [old [Hold Hcand]].
+    rewrite Hold in H. apply cand_spec in Hcand as [Hpk Hnc].
+    assert (Hne : idx <> c).
+    { intros ->. rewrite Hc1 in Hold. inv Hold. apply Hnc. reflexivity. }
+    rewrite aget_del_neq in H by congruence. rewrite Hc1 in H.
+    destruct (status_eqb (p_status old) Connected) eqn:Hst; [|discriminate].
+    apply status_eqb_eq in Hst. contradiction.
   - destruct (aget c (peers s)); discriminate.
   - discriminate.
   - discriminate.
   - discriminate.
 Qed.
 
-Theorem no_panic_guarded g n f0 tr s a site :
-  Reach g n f0 tr s -> known_keychange g s a = false -> step g s a <> Panic site.
+Theorem no_panic g n f0 tr s a site : Reach g n f0 tr s -> step g s a <> Panic site.
+Proof. intros HR. apply step_no_panic. apply (Reach_Inv _ _ _ _ _ HR). Qed.
+
+(* ------------------------------------------------------------------ *)
+(* the accepted challenge belongs to the current connection             *)
+(* ------------------------------------------------------------------ *)
+(* a run in which a static entry was re-opened while a challenge of its
+   previous connection was still stored *)
+Definition Known_C17_stale (tr : list event) : Prop := has_stale tr = true.
+
+Theorem accepted_on_this_connection g n f0 tr s c K ch :
+  Reach g n f0 tr s -> ~ Known_C17_stale tr -> In (EAccepted c K ch) tr ->
+  exists l1 l2 l3, tr = l3 ++ EAccepted c K ch :: l2 ++ EIssued c ch :: l1
+                   /\ forall e, In e l2 -> closes c e = false.
 Proof.
-  intros HR Hk H. apply step_panic in H as [H _]; [congruence|].
-  apply (Reach_Inv _ _ _ _ _ HR).
+  intros HR Hk Hin. apply Reach_Inv in HR. destruct HR as [_ _ _ _ _ Htr _].
+  assert (Hst : has_stale tr = false).
+  { unfold Known_C17_stale in Hk. destruct (has_stale tr); [exfalso; auto|reflexivity]. }
+  apply in_split in Hin as [l3 [l ->]].
+  destruct (trace_ok_split _ _ _ Htr) as [[_ [_ [_ Hfresh]]] _].
+  rewrite has_stale_app in Hst. apply orb_false_iff in Hst as [_ Hst].
+  cbn [has_stale existsb is_stale orb] in Hst. fold (has_stale l) in Hst.
+  destruct (since_issue_split _ _ _ (Hfresh Hst)) as [l2 [l1 [-> Hl2]]].
+  exists l1, l2, l3. split; [reflexivity|exact Hl2].
 Qed.
 
 (* ------------------------------------------------------------------ *)
@@ -1000,21 +1097,81 @@ Definition addr_complete (s : state) : Prop :=
   forall c p K, aget c (peers s) = Some p -> p_pk p = Some K ->
   exists c', aget K (addr s) = Some c'.
 
-Definition is_purged (e : event) : bool := match e with EPurged _ => true | _ => false end.
-Definition has_purged (tr : list event) : bool := existsb is_purged tr.
-
-Lemma aget_fold_del gone : forall a K c,
-  aget K (fold_left del_key_of gone a) = Some c ->
-  aget K a = Some c /\ forall cp, In cp gone -> p_pk (snd cp) <> Some K.
+Lemma best_some K ps b :
+  best K ps = Some b -> exists p, In (fst b, p) ps /\ p_pk p = Some K.
 Proof.
-  induction gone as [|x t IH]; intros a K c H; cbn [fold_left] in H.
-  - split; [exact H|intros ? []].
-  - apply IH in H as [H Ht]. unfold del_key_of in H.
-    destruct (p_pk (snd x)) as [k|] eqn:Hk.
-    + destruct (N.eq_dec K k) as [->|Hne]; [rewrite aget_del_eq in H; discriminate|].
-      rewrite aget_del_neq in H by exact Hne. split; [exact H|].
-      intros cp [<-|Hin]; [congruence|apply Ht; exact Hin].
-    + split; [exact H|]. intros cp [<-|Hin]; [congruence|apply Ht; exact Hin].
+  induction ps as [|[c p] t IH]; cbn [best]; [discriminate|].
+  destruct (p_pk p) as [k|] eqn:Hk.
+  - destruct (N.eqb_spec k K) as [->|Hne].
+    + destruct (best K t) as [b0|] eqn:Hb.
+      * destruct (better (c, is_conn p) b0); intros E; inv E.
+        -- exists p. split; [left; reflexivity|exact Hk].
+        -- destruct (IH eq_refl) as [q [Hin Hq]]. exists q. split; [right; exact Hin|exact Hq].
+      * intros E; inv E. exists p. split; [left; reflexivity|exact Hk].
+    + intros E. destruct (IH E) as [q [Hin Hq]]. exists q. split; [right; exact Hin|exact Hq].
+  - intros E. destruct (IH E) as [q [Hin Hq]]. exists q. split; [right; exact Hin|exact Hq].
+Qed.
+
+Lemma best_none K ps : best K ps = None -> forall c p, In (c, p) ps -> p_pk p <> Some K.
+Proof.
+  induction ps as [|[c0 p0] t IH]; cbn [best]; intros H c p Hin; [destruct Hin|].
+  destruct (p_pk p0) as [k|] eqn:Hk.
+  - destruct (N.eqb_spec k K) as [->|Hne].
+    + destruct (best K t) as [b0|]; [destruct (better (c0, is_conn p0) b0)|]; discriminate.
+    + destruct Hin as [E|Hin]; [inv E; congruence|eapply IH; eauto].
+  - destruct Hin as [E|Hin]; [inv E; congruence|eapply IH; eauto].
+Qed.
+
+Definition inkeep (keep : list (N * peer)) (K c : N) : Prop :=
+  exists q, aget c keep = Some q /\ p_pk q = Some K.
+
+Lemma repoint_fold_sound keep : ksorted keep -> forall gone a,
+  (forall K c, aget K a = Some c ->
+     inkeep keep K c \/ exists p, In (c, p) gone /\ p_pk p = Some K) ->
+  forall K c, aget K (fold_left (repoint keep) gone a) = Some c -> inkeep keep K c.
+Proof.
+  intros Hk. induction gone as [|[i p] t IH]; intros a H K c Hget; cbn [fold_left] in Hget.
+  - destruct (H _ _ Hget) as [Hl|[q [[] _]]]. exact Hl.
+  - eapply IH; [|exact Hget]. clear Hget K c. intros K c Hget.
+    assert (Hrest : aget K a = Some c -> (p_pk p = Some K -> c <> i) ->
+                    inkeep keep K c \/ exists q, In (c, q) t /\ p_pk q = Some K).
+    { intros Ha Hni. destruct (H _ _ Ha) as [Hl|[q [[E|Hin] Hq]]]; [left; exact Hl| |right; eauto].
+      inv E. exfalso. apply (Hni Hq). reflexivity. }
+    unfold repoint in Hget. cbn [fst snd] in Hget.
+    destruct (p_pk p) as [K0|] eqn:Hpk; [|apply Hrest; [exact Hget|discriminate]].
+    destruct (aget K0 a) as [c1|] eqn:Hc1.
+    + destruct (N.eqb_spec c1 i) as [->|Hne].
+      * destruct (best K0 keep) as [b|] eqn:Hb.
+        -- destruct (N.eq_dec K K0) as [->|HnK].
+           ++ rewrite aget_aset_eq in Hget. inv Hget. left.
+              destruct (best_some _ _ _ Hb) as [q [Hin Hq]]. exists q. split; [|exact Hq].
+              apply in_aget; assumption.
+           ++ rewrite aget_aset_neq in Hget by exact HnK. apply Hrest; [exact Hget|].
+              intros E. congruence.
+        -- destruct (N.eq_dec K K0) as [->|HnK]; [rewrite aget_del_eq in Hget; discriminate|].
+           rewrite aget_del_neq in Hget by exact HnK. apply Hrest; [exact Hget|].
+           intros E. congruence.
+      * apply Hrest; [exact Hget|]. intros E. inv E. rewrite Hc1 in Hget. inv Hget. exact Hne.
+    + apply Hrest; [exact Hget|]. intros E. inv E. congruence.
+Qed.
+
+Lemma repoint_fold_complete keep : forall gone a,
+  (forall K, (exists c q, In (c, q) keep /\ p_pk q = Some K) -> exists c', aget K a = Some c') ->
+  forall K, (exists c q, In (c, q) keep /\ p_pk q = Some K) ->
+  exists c', aget K (fold_left (repoint keep) gone a) = Some c'.
+Proof.
+  induction gone as [|[i p] t IH]; intros a H K HK; cbn [fold_left]; [apply H; exact HK|].
+  apply IH; [|exact HK]. clear K HK. intros K HK.
+  unfold repoint. cbn [fst snd].
+  destruct (p_pk p) as [K0|]; [|apply H; exact HK].
+  destruct (aget K0 a) as [c1|] eqn:Hc1; [|apply H; exact HK].
+  destruct (c1 =? i); [|apply H; exact HK].
+  destruct (best K0 keep) as [b|] eqn:Hb.
+  - destruct (N.eq_dec K K0) as [->|HnK]; [rewrite aget_aset_eq; eauto|].
+    rewrite aget_aset_neq by exact HnK. apply H; exact HK.
+  - destruct (N.eq_dec K K0) as [->|HnK].
+    + exfalso. destruct HK as [c [q [Hin Hq]]]. eapply best_none; eauto.
+    + rewrite aget_del_neq by exact HnK. apply H; exact HK.
 Qed.
 
 Lemma key_differs_false p K K' : key_differs p K = false -> p_pk p = Some K' -> K' = K.
@@ -1071,11 +1228,11 @@ Proof.
     rewrite aget_aset_neq by exact Hn. rewrite aget_del_neq by exact Hni.
     rewrite aget_aset_neq by exact Hn. eauto.
   - (* purge *)
-    apply aget_fold_del in Hget as [Hget Hgone]. destruct (HA _ _ Hget) as [q [Hq Hk]].
-    exists q. split; [|exact Hk]. rewrite aget_filter by exact Hs. rewrite Hq.
-    destruct (purgeable (now s) (c0, q)) eqn:Hpg; [|reflexivity].
-    exfalso. apply (Hgone (c0, q)); [|exact Hk].
-    apply filter_In. split; [apply aget_in; exact Hq|exact Hpg].
+    eapply repoint_fold_sound; [apply ksorted_filter; exact Hs| |exact Hget].
+    intros K1 c1 Ha. destruct (HA _ _ Ha) as [q [Hq Hk]].
+    destruct (purgeable (now s) (c1, q)) eqn:Hpg.
+    + right. exists q. split; [|exact Hk]. apply filter_In. split; [apply aget_in; exact Hq|exact Hpg].
+    + left. exists q. split; [|exact Hk]. rewrite aget_filter by exact Hs. rewrite Hq, Hpg. reflexivity.
   - apply HA; exact Hget.
 Qed.
 
@@ -1088,20 +1245,10 @@ Proof.
     + eapply step_Step; [|exact Hst]. apply (Reach_Inv _ _ _ _ _ HR).
 Qed.
 
-Lemma filter_none_all {A} (f : A -> bool) l :
-  filter f l = [] -> filter (fun x => negb (f x)) l = l.
-Proof.
-  induction l as [|x t IH]; cbn [filter]; [reflexivity|].
-  destruct (f x); [discriminate|]. cbn [negb]. intros H. now rewrite IH.
-Qed.
-
-Lemma has_purged_app a b : has_purged (a ++ b) = has_purged a || has_purged b.
-Proof. apply existsb_app. Qed.
-
 Lemma addr_complete_step g s a s' ev :
-  addr_complete s -> Step g s a s' ev -> has_purged ev = false -> addr_complete s'.
+  ksorted (peers s) -> addr_complete s -> Step g s a s' ev -> addr_complete s'.
 Proof.
-  intros HA HS Hrm.
+  intros Hs HA HS.
   destruct HS as
     [c p0 Hp0 Hst | c p0 Hp0 Hst | a nx nw Hnx | a c p l nx Hp Hnx | c x p l Hp
     | c r pref p l Hp | c ext p Hp
@@ -1129,23 +1276,31 @@ Proof.
     destruct (N.eq_dec c0 idx) as [->|Hni]; [rewrite aget_del_eq in Hget; discriminate|].
     rewrite aget_del_neq in Hget by exact Hni. rewrite aget_aset_neq in Hget by exact Hn.
     eapply HA; eauto.
-  - (* purge that removes nothing *)
-    assert (Hg : filter (purgeable (now s)) (peers s) = []).
-    { destruct (filter (purgeable (now s)) (peers s)); [reflexivity|cbn in Hrm; discriminate]. }
-    intros c0 q K Hget Hk. cbn [addr peers] in *. rewrite Hg. cbn [fold_left].
-    rewrite (filter_none_all _ _ Hg) in Hget. eapply HA; eauto.
+  - (* purge: a key whose map entry pointed at a purged entry is re-pointed *)
+    intros c0 q K Hget Hk. cbn [addr peers] in *.
+    apply repoint_fold_complete.
+    + intros K1 [c1 [q1 [Hin Hq1]]]. apply filter_In in Hin as [Hin _].
+      eapply HA; [apply in_aget; eauto|exact Hq1].
+    + exists c0, q. split; [apply aget_in; exact Hget|exact Hk].
   - intros c0 q K Hget Hk. eapply HA; eauto.
 Qed.
 
-Theorem address_complete_guarded g n f0 tr s :
-  Reach g n f0 tr s -> has_purged tr = false -> addr_complete s.
+Theorem address_complete g n f0 tr s : Reach g n f0 tr s -> addr_complete s.
 Proof.
-  induction 1 as [|tr s a s' outs ev HR IH Hok Hst]; intros Hrm.
+  induction 1 as [|tr s a s' outs ev HR IH Hok Hst].
   - intros c p K Hget Hk. apply aget_in in Hget. apply static_peers_in in Hget as [_ E].
     cbn [snd] in E. subst p. discriminate.
-  - rewrite has_purged_app in Hrm. apply orb_false_iff in Hrm as [H1 H2].
-    eapply addr_complete_step; [apply IH; exact H2| |exact H1].
-    eapply step_Step; [|exact Hst]. apply (Reach_Inv _ _ _ _ _ HR).
+  - eapply addr_complete_step; [|exact IH|].
+    + apply (Reach_Inv _ _ _ _ _ HR).
+    + eapply step_Step; [|exact Hst]. apply (Reach_Inv _ _ _ _ _ HR).
+Qed.
+
+Theorem address_complete' g n f0 tr s c p K :
+  Reach g n f0 tr s -> aget c (peers s) = Some p -> p_pk p = Some K ->
+  exists c' p', aget K (addr s) = Some c' /\ aget c' (peers s) = Some p' /\ p_pk p' = Some K.
+Proof.
+  intros HR Hp HK. destruct (address_complete _ _ _ _ _ HR _ _ _ Hp HK) as [c' Hc'].
+  destruct (address_sound _ _ _ _ _ HR _ _ Hc') as [p' [Hp' HK']]. eauto.
 Qed.
 
 (* ------------------------------------------------------------------ *)
@@ -1207,39 +1362,61 @@ Proof.
   do 3 eexists. split; [exact HR|]. split; [left; reflexivity|]. vm_compute. repeat split; reflexivity.
 Qed.
 
-(* the purge drops the key of a live connection: key 2 is authenticated on 2
-   and on 3, 3 goes away and is purged after ten minutes *)
+(* regression (fix 88efef8): key 2 is authenticated on 2 and on 3, 3 goes away
+   and is purged after ten minutes; the key stays mapped, to the live connection 2 *)
 Definition purge_acts : list action :=
   [ANewPeer 2; ARemoteSign 2 1; ADeliverResp 2 (mkR 2 (Sig 2 1) 2 vA vW) 0;
    ANewPeer 3; ARemoteSign 2 3; ADeliverResp 3 (mkR 2 (Sig 2 3) 4 vA vW) 0;
    ADisconnect 3 false; ATick 600000; APurge].
 
-Lemma address_complete_refuted_by_purge :
+Lemma purge_keeps_key :
   exists tr s p, Reach g1 1 1 tr s
+    /\ In (EPurged 3) tr /\ aget 3 (peers s) = None
     /\ aget 2 (peers s) = Some p /\ p_status p = Connected /\ p_pk p = Some 2
-    /\ aget 2 (addr s) = None.
+    /\ aget 2 (addr s) = Some 2.
 Proof.
   destruct (run g1 (init 1 1) purge_acts) as [[s ev]| |] eqn:Hr; try (vm_compute in Hr; discriminate).
   pose proof (run_Reach g1 1 1 purge_acts [] (init 1 1) s ev (R_init _ _ _) eq_refl Hr) as HR.
   rewrite app_nil_r in HR. vm_compute in Hr. inv Hr.
-  do 3 eexists. split; [exact HR|]. vm_compute. repeat split; reflexivity.
+  do 3 eexists. split; [exact HR|]. split; [left; reflexivity|]. vm_compute. repeat split; reflexivity.
 Qed.
 
-(* key change on one entry: key 3 authenticates on 2, asks for a new
-   handshake (sends a challenge, gets a fresh one back) and answers it with key 4 *)
+(* regression (fix ae2aeaa): key 3 authenticates on 2, asks for a new handshake and
+   answers it with key 4: rejected, the entry keeps key 3 and is disconnected *)
 Definition keychange_acts : list action :=
   [ANewPeer 2; ARemoteSign 3 1; ADeliverResp 2 (mkR 3 (Sig 3 1) 2 vA vW) 0;
-   ADeliverChal 2 5; ARemoteSign 4 6].
-Definition keychange_last : action := ADeliverResp 2 (mkR 4 (Sig 4 6) 7 vA vW) 0.
+   ADeliverChal 2 5; ARemoteSign 4 6; ADeliverResp 2 (mkR 4 (Sig 4 6) 7 vA vW) 0].
 
-Lemma no_panic_refuted :
-  exists tr s a, Reach g1 1 1 tr s /\ act_ok g1 s a = true
-                 /\ step g1 s a = Panic SITE_KEY_CHANGED.
+Lemma keychange_rejected :
+  exists tr s p, Reach g1 1 1 tr s
+    /\ aget 2 (peers s) = Some p /\ p_status p = Disconnected /\ p_pk p = Some 3
+    /\ p_chal p = None /\ aget 3 (addr s) = Some 2 /\ aget 4 (addr s) = None
+    /\ accepted_count 6 tr = 0%nat.
 Proof.
   destruct (run g1 (init 1 1) keychange_acts) as [[s ev]| |] eqn:Hr; try (vm_compute in Hr; discriminate).
   pose proof (run_Reach g1 1 1 keychange_acts [] (init 1 1) s ev (R_init _ _ _) eq_refl Hr) as HR.
   rewrite app_nil_r in HR. vm_compute in Hr. inv Hr.
-  eexists _, _, keychange_last. split; [exact HR|]. vm_compute. split; reflexivity.
+  do 3 eexists. split; [exact HR|]. vm_compute. repeat split; reflexivity.
+Qed.
+
+(* a challenge of the previous connection survives the re-dial of a static entry:
+   a challenge arrives on the static entry 1 while it is not connected (message in
+   flight after a disconnect), the node answers and stores challenge 6; the entry
+   is re-dialled (reset), and a response over 6 is accepted on the new connection *)
+Definition stale_acts : list action :=
+  [ADeliverChal 1 5; ANewPeer 1; ARemoteSign 2 6; ADeliverResp 1 (mkR 2 (Sig 2 6) 0 vA vW) 0].
+
+Lemma accepted_on_this_connection_refuted :
+  exists tr s p l1 l2 l3, Reach g1 1 1 tr s
+    /\ aget 1 (peers s) = Some p /\ p_status p = Connected /\ p_pk p = Some 2
+    /\ tr = l3 ++ EAccepted 1 2 6 :: l2 ++ EIssued 1 6 :: l1
+    /\ In (EReset 1) l2.
+Proof.
+  destruct (run g1 (init 1 1) stale_acts) as [[s ev]| |] eqn:Hr; try (vm_compute in Hr; discriminate).
+  pose proof (run_Reach g1 1 1 stale_acts [] (init 1 1) s ev (R_init _ _ _) eq_refl Hr) as HR.
+  rewrite app_nil_r in HR. vm_compute in Hr. inv Hr.
+  eexists _, _, _, [ESigned 1 5], [ESigned 2 6; EStale 1 6; EReset 1], [].
+  split; [exact HR|]. vm_compute. repeat split; try reflexivity. right; right; left; reflexivity.
 Qed.
 
 (* reflection: the attacker opens 2 and 3, shows the challenge of 2 to the node
@@ -1284,30 +1461,3 @@ Proof.
   do 3 eexists. vm_compute. repeat split; reflexivity.
 Qed.
 
-(* ------------------------------------------------------------------ *)
-(* the known classes, as propositions                                   *)
-(* ------------------------------------------------------------------ *)
-(* a response delivered on an entry that already records a different key *)
-Definition Known_C17_keychange (g : cfg) (s : state) (a : action) : Prop :=
-  known_keychange g s a = true.
-(* a run in which remove_disconnected_peers purged an entry *)
-Definition Known_C17_purged (tr : list event) : Prop := has_purged tr = true.
-
-Theorem no_panic_guarded' g n f0 tr s a site :
-  Reach g n f0 tr s -> ~ Known_C17_keychange g s a -> step g s a <> Panic site.
-Proof.
-  intros HR Hk. eapply no_panic_guarded; [exact HR|].
-  unfold Known_C17_keychange in Hk. destruct (known_keychange g s a); [exfalso; auto|reflexivity].
-Qed.
-
-Theorem address_complete_guarded' g n f0 tr s c p K :
-  Reach g n f0 tr s -> ~ Known_C17_purged tr ->
-  aget c (peers s) = Some p -> p_pk p = Some K ->
-  exists c' p', aget K (addr s) = Some c' /\ aget c' (peers s) = Some p' /\ p_pk p' = Some K.
-Proof.
-  intros HR Hk Hp HK.
-  assert (Hrm : has_purged tr = false).
-  { unfold Known_C17_purged in Hk. destruct (has_purged tr); [exfalso; auto|reflexivity]. }
-  destruct (address_complete_guarded _ _ _ _ _ HR Hrm _ _ _ Hp HK) as [c' Hc'].
-  destruct (address_sound _ _ _ _ _ HR _ _ Hc') as [p' [Hp' HK']]. eauto.
-Qed.
